@@ -40,6 +40,8 @@ def op_menu(cols, fresh, more_tags=()):
         a, b = cols[0], cols[1]
         ops.append(("sel", ("cmp", "eq", ("ref", a), ("ref", b))))
         ops.append(("sort", [(("ref", a), True), (("ref", b), False)]))
+        # a sort by an expression over both columns: rows can tie on it although they differ on either column
+        ops.append(("sort", [(("add", ("ref", a), ("ref", b)), True)]))
         ops.append(("calc", fresh, ("add", ("ref", a), ("ref", b))))
     return ops
 
@@ -129,6 +131,8 @@ def make_cases(rng, tier):
         if len(tgts) > 40 and tier == "quick":
             tgts = rng.sample(tgts, 40)
         tgts = tgts + long_targets(cols)
+        if len([c for c in cols if c.is_key]) >= 2:
+            tgts = tgts + [consistent_rows(cols, [(1, 0), (0, 1)]), consistent_rows(cols, [(0, 1), (1, 0), (0, 0)])]
         leaf = ENG.make_leaf(set(cols), payload=iteration.RowSequence([]), name="L1")
         REG.names["L1"] = 1
         for cur in op_menu(cols, fresh_k, more_tags=[fresh_n]):
